@@ -175,9 +175,11 @@ impl World {
         u
     }
 
-    fn payload(&mut self, tx: u64, idx: usize) -> Vec<u8> {
+    fn payload(&mut self, tx: u64, idx: usize, n: usize) -> Vec<u8> {
         use rand::RngExt;
-        let len = match self.payload_rule {
+        // a multi-event transaction must still fit a segment: only its first event is large
+        let rule = if idx > 0 && n > 1 && !matches!(self.payload_rule, PayloadRule::Tiny) { PayloadRule::Mixed } else { self.payload_rule };
+        let len = match rule {
             PayloadRule::Tiny => 8 + (tx as usize * 7 + idx) % 40,
             PayloadRule::Rollover => 20_000 + self.rng.random_range(0..15_000),
             PayloadRule::Straddle => match self.rng.random_range(0..6) {
@@ -189,7 +191,7 @@ impl World {
                 _ => self.rng.random_range(0..600),
             },
             PayloadRule::Mixed => match self.rng.random_range(0..10) {
-                0 => 40_000,
+                0 if idx == 0 => 40_000,
                 1 => 9_000,
                 _ => self.rng.random_range(0..300),
             },
@@ -226,7 +228,7 @@ impl World {
         for (i, e) in evs.iter().enumerate() {
             let stream = e["s"].as_str().unwrap().to_string();
             let event_id = uuid_v7_with_partition_hash(hash);
-            let mut payload = self.payload(id, i);
+            let mut payload = self.payload(id, i, n);
             if oversize && i == 0 {
                 payload = vec![0x55; self.cfg.segment_size];
             }
